@@ -197,7 +197,7 @@ def nontrivial(c):
             cnt[b] = cnt.get(b, 0) + 1
         if sum(1 for v in cnt.values() if v >= 2) >= 2:
             return True
-    return c.state in ('jumpoff', 'drawn') or any(j.round_lim == 1 for j in c.jumpers)
+    return c.state in ('jumpoff', 'drawn') or any(getattr(j, 'round_lim', 3) == 1 for j in c.jumpers)
 
 
 def do_prefix(ctx, bibs, hist, draw, c=None):
